@@ -499,7 +499,10 @@ class TimeDeltaUnmarshaller(AbstractUnmarshaller[TimeDeltaT], tp.Generic[TimeDel
         if td.__class__ is self.t:
             return td  # type: ignore[return-value]
 
-        return self.t(seconds=td.total_seconds())
+        # Whole microseconds: float seconds lose precision for long durations.
+        #   (The stdlib division reads the exact base fields of any subclass.)
+        usec = datetime.timedelta.__floordiv__(td, datetime.timedelta(microseconds=1))
+        return self.t(microseconds=usec)
 
 
 UUIDT = tp.TypeVar("UUIDT", bound=uuid.UUID)
